@@ -235,6 +235,17 @@ def handle : Handler := fun fn args =>
       .ok (res (fun (p : Reg × Forest (LBox V)) =>
           Json.mkObj [("reg", regToJson p.1), ("vars", forestToJson lboxToJson p.2)])
         (encodeState r isMut st))
+  | "encode_state_typed" => do
+      -- as encode_state, with the class hierarchy [[type, [classes in its MRO below Variable]], ...]
+      let r ← regOfJson (← argAt args 0)
+      let isMut ← mutableOfJson (← argAt args 1)
+      let st ← forestOfJson nvarOfJson (← argAt args 2)
+      let table ← asList (fun e => do
+        pure ((← vtypeOfJson (← argAt e 0)), (← asList vtypeOfJson (← argAt e 1)))) (← argAt args 3)
+      let h : Hier := ⟨fun t => match table.find? (fun e => e.1 = t) with | some e => e.2 | none => [t]⟩
+      .ok (res (fun (p : Reg × Forest (LBox V)) =>
+          Json.mkObj [("reg", regToJson p.1), ("vars", forestToJson lboxToJson p.2)])
+        (encodeStateTyped h r isMut st))
   | "decode_vars" => do
       let r ← regOfJson (← argAt args 0)
       let vars ← forestOfJson lboxOfJson (← argAt args 1)
